@@ -137,10 +137,18 @@ impl Property for C06 {
     fn generate(&self, rng: &mut Rng, tier: Tier) -> Case {
         let mut case = Case::new("C06", "noise");
         let pol = *rng.pick(&[Policy::Ignore, Policy::Panic, Policy::Stderr, Policy::Stdout]);
+        // one scenario in twelve is a long, very noisy history in one input
+        let long = rng.chance(1, 12);
         let w = StreamWish {
-            min_records: 0,
-            max_records: if tier == Tier::Thorough { 30 } else { 10 },
-            noise_eighths: *rng.pick(&[0usize, 1, 2, 4, 8]),
+            min_records: if long { 150 } else { 0 },
+            max_records: if long {
+                400
+            } else if tier == Tier::Thorough {
+                30
+            } else {
+                10
+            },
+            noise_eighths: if long { 8 } else { *rng.pick(&[0usize, 1, 2, 4, 8]) },
             allow_touch: true,
             spell_level: 1,
             allow_big: true,
@@ -191,6 +199,10 @@ impl Property for C06 {
             wish.default_rows = true;
         }
         case.opts = gen_pipe(rng, &wish).opts;
+        if rng.chance(1, 6) && !has_opt(&case.opts, "--group-by") && !has_opt(&case.opts, "--merge") {
+            // the ordinals of the values are part of the rows: noise must not shift them
+            case.opts.push(vec!["--select".into(), format!("{}=ord", rng.pick(&["&index", "&index-in-file"]))]);
+        }
         case.opts.push(policy_opt(pol));
         case.delivery = gen_delivery(rng, case.stream().len());
         if case.param("via") > 0 {
@@ -364,7 +376,9 @@ impl Property for C06 {
                     // placement: the diagnostics of a region sit after the rows of the values
                     // that precede it and before the row of the next value
                     let mut allowed = Vec::new();
-                    for (_, prefix) in &reached {
+                    // (a reference run per region: the first dozen regions of a long history)
+                    let sampled = reached.len() > 12;
+                    for (_, prefix) in reached.iter().take(12) {
                         let p = ctx.exec(ref_spec(&with_policy(case, Policy::Ignore), prefix));
                         if !p.outcome.is_ok() {
                             ctx.stats.invalid = true;
@@ -383,7 +397,7 @@ impl Property for C06 {
                         }
                     }
                     for x in &at {
-                        if !allowed.contains(x) {
+                        if !sampled && !allowed.contains(x) {
                             return viol(
                                 "C06.stdout-placement",
                                 format!("a diagnostic at row-byte offset {x} does not correspond to any malformed region (regions at {allowed:?})"),
